@@ -113,7 +113,7 @@ def _h_aio(world: World) -> None:
     backend = SimAsyncIOBackend(net)
     d_l2p = Delivery() if calm else Delivery.draw(world, "l2p")
     d_p2l = Delivery() if calm else Delivery.draw(world, "p2l")
-    for d, tot in ((d_l2p, sum(w["size"] for w in a_writes)), (d_p2l, sum(w["size"] for w in b_writes))):
+    for d, tot in ((d_l2p, sum(w["size"] for w in a_writes + a2_writes)), (d_p2l, sum(w["size"] for w in b_writes))):
         if d.frag in (1, 3) and len(d.delays) > 2:
             d.delays = (0, 1)  # tiny fragments with long per-fragment delays only cost simulation time
         # bound the number of link events per direction (~600 fragments): 1-byte fragments are for small transfers
